@@ -355,7 +355,7 @@ def cast_row(ctx, I, b, bb, st, term, fr, to, need):
             tt = res(b2).ret()
             ok = ok and tt[0] == 'call' and tt[1] == render.NEW and all(x[0] == 'cast' and x[2] == 'u16' for x in tt[2])
         return ok, 'image dimensions are the u16 canvas size (frame_image/layer_image create RgbaImage::new(width as u32, height as u32))'
-    if fn == 'asefile::file::write_tilemap_cel_to_image' and fr == 'i64' and to == 'u32':
+    if fn in ('asefile::file::write_tilemap_cel_to_image', 'asefile::file::write_raw_cel_to_image') and fr in ('i64', 'i32') and to == 'u32':
         img = render.param_named(b, ty_contains='image::ImageBuffer')
         okx = render.clip_guarded(b, bb, term, ('width', '0'), img) or render.clip_guarded(b, bb, term, ('height', '1'), img)
         return okx, 'under the clip guard 0 <= coordinate < image dimension (u32)'
